@@ -360,7 +360,17 @@ fn gen_bad(rng: &mut Rng, entries: &[Entry]) -> Bad {
             BadKind::MissingRequired { var: *rng.pick(&req) }
         }
         _ => {
-            let seqs: [&[u8]; 8] = [
+            let seqs: [&[u8]; 16] = [
+                // four-byte sequences cut after 1, 2 and 3 bytes; lead bytes that announce 4
+                // bytes or more but are never valid
+                b"\xf0",
+                b"\xf4",
+                b"\xf0\x9f",
+                b"\xf0\x9f\x98",
+                b"\xf5",
+                b"\xf8\x88\x80\x80\x80",
+                b"\xe0\x80\x80", // overlong three-byte form
+                b"\xc1\xbf",     // overlong two-byte form
                 b"\xff",
                 b"\xc3",       // truncated 2-byte sequence followed by newline
                 b"\x80",       // stray continuation byte
